@@ -11,7 +11,7 @@ open Goyang.Model
 open Goyang.Lemmas.Deviate (innerStep outerStep applyDeviations_eq stageStep devsOf)
 
 section
-variable {B X : Registry} {ds : List Mod} {dk : KeyMap} (h : DevExt B X ds dk)
+variable {B X : Registry} {ds : List Mod} {dk : KeyMap} (h : DevExtCore B X ds dk)
 include h
 
 omit h in
